@@ -12,6 +12,7 @@ import (
 	"errors"
 	"flag"
 	"fmt"
+	"github.com/resonatehq/resonate/pkg/promise"
 	"io"
 	"log/slog"
 	"math/rand"
@@ -60,13 +61,13 @@ type ownedAIO struct {
 	now     int64
 }
 
-func (a *ownedAIO) String() string                                  { return "ownedAIO" }
-func (a *ownedAIO) Start() error                                    { return nil }
-func (a *ownedAIO) Stop() error                                     { return nil }
-func (a *ownedAIO) Shutdown()                                       {}
-func (a *ownedAIO) Errors() <-chan error                            { return nil }
-func (a *ownedAIO) Signal(<-chan interface{}) <-chan interface{}    { panic("not used") }
-func (a *ownedAIO) Flush(int64)                                     {}
+func (a *ownedAIO) String() string                                          { return "ownedAIO" }
+func (a *ownedAIO) Start() error                                            { return nil }
+func (a *ownedAIO) Stop() error                                             { return nil }
+func (a *ownedAIO) Shutdown()                                               {}
+func (a *ownedAIO) Errors() <-chan error                                    { return nil }
+func (a *ownedAIO) Signal(<-chan interface{}) <-chan interface{}            { panic("not used") }
+func (a *ownedAIO) Flush(int64)                                             {}
 func (a *ownedAIO) EnqueueSQE(*bus.SQE[t_aio.Submission, t_aio.Completion]) { panic("not used") }
 func (a *ownedAIO) EnqueueCQE(c *bus.CQE[t_aio.Submission, t_aio.Completion]) {
 	a.cq = append(a.cq, c)
@@ -132,14 +133,14 @@ type world struct {
 	reg    *metrics.Metrics
 	prev   map[string]any // previous implementation dump (for the property monitors)
 	// monitor state (survives crash/restart of the server: it is the observer's memory)
-	seen     map[string]M      // C01: first observed creation / completion fields per promise id
-	submitAt map[string]int64  // clock when a request was submitted (its coroutine starts no earlier)
-	leases   map[string]*lease // C07: lower bound of the lease end per task id
+	seen       map[string]M      // C01: first observed creation / completion fields per promise id
+	submitAt   map[string]int64  // clock when a request was submitted (its coroutine starts no earlier)
+	leases     map[string]*lease // C07: lower bound of the lease end per task id
 	lockLeases map[string]*lease // C09: lower bound of the lease end per resource id (pid field = execution id)
-	claimed  map[string]bool   // C07: (task id, counter) pairs whose claim was acknowledged
-	respN      map[string]int  // C12: responses per request id
-	lost       map[string]bool // C12: requests in flight at a crash (their responses die with the process)
-	submitted  []string        // C12: request ids in submission order
+	claimed    map[string]bool   // C07: (task id, counter) pairs whose claim was acknowledged
+	respN      map[string]int    // C12: responses per request id
+	lost       map[string]bool   // C12: requests in flight at a crash (their responses die with the process)
+	submitted  []string          // C12: request ids in submission order
 	stepNo     int
 	submitStep map[string]int // step at which a request was submitted
 	doneStep   map[string]int // C01: step at which a promise was first observed completed
@@ -1006,6 +1007,9 @@ func (r *runner) apply(w *world, st Step) (M, bool) {
 			cpl = M{"k": "sender", "success": ok}
 		}
 		r.counts["send_"+st.Outcome]++
+		if h.sqe.Submission.Kind == t_aio.Sender && h.sqe.Submission.Sender != nil && h.sqe.Submission.Sender.Task != nil && h.sqe.Submission.Sender.Task.Mesg != nil {
+			r.counts["send_"+string(h.sqe.Submission.Sender.Task.Mesg.Type)+"_"+st.Outcome]++
+		}
 		w.aio.EnqueueCQE(cqe)
 		if _, _, err := r.call(M{"op": "complete", "tid": st.Tid, "seq": st.Seq, "cpl": cpl}); err != nil {
 			return M{"harness": err.Error()}, false
@@ -1102,12 +1106,12 @@ func (r *runner) replayScript(cfg Cfg, bg bool, steps []Step) (int, M, bool) {
 // ---------------------------------------------------------------- generation
 
 type genOpts struct {
-	kinds     []t_api.Kind
-	routedPct int
-	failPct   int
-	crashPct  int
+	kinds       []t_api.Kind
+	routedPct   int
+	failPct     int
+	crashPct    int
 	shutdownPct int
-	steps     int
+	steps       int
 }
 
 func drawCfg(g *gen.G, small bool) Cfg {
@@ -1261,7 +1265,85 @@ func (r *runner) generate(g *gen.G, cfg Cfg, bg bool, o genOpts) ([]Step, int, M
 		}
 		return settle(3, ttl1/2+1)
 	}
+	// a registration's life: a promise gets a callback and a subscription, completes, and the resulting resume / notify
+	// tasks are dispatched with every kind of transport answer (success, refusal, error), over a few dispatch cycles
+	registrationScenario := func() (M, bool) {
+		id := g.Pick(gen.ApiPromiseIds)
+		submit := func(k t_api.Kind, fill func(*t_api.Request)) (M, bool) {
+			nreq++
+			tid := fmt.Sprintf("r%d", nreq)
+			rq := &t_api.Request{Kind: k, Tags: map[string]string{"id": tid, "name": k.String(), "protocol": "dst"}}
+			fill(rq)
+			if info, pred := do(Step{Op: "submit", Tid: tid, Req: canon.Req(rq)}); info != nil {
+				return info, pred
+			}
+			return settle(3, 1)
+		}
+		if info, pred := submit(t_api.CreatePromise, func(rq *t_api.Request) {
+			rq.CreatePromise = &t_api.CreatePromiseRequest{Id: id, Timeout: now + 100000, Tags: map[string]string{}}
+		}); info != nil {
+			return info, pred
+		}
+		if info, pred := submit(t_api.CreateCallback, func(rq *t_api.Request) {
+			rq.CreateCallback = &t_api.CreateCallbackRequest{PromiseId: id, RootPromiseId: "root-" + id, Timeout: now + 100000, Recv: []byte(`"default"`)}
+		}); info != nil {
+			return info, pred
+		}
+		if info, pred := submit(t_api.CreateSubscription, func(rq *t_api.Request) {
+			rq.CreateSubscription = &t_api.CreateSubscriptionRequest{Id: "n" + fmt.Sprint(g.R.Intn(2)), PromiseId: id, Timeout: now + 100000, Recv: []byte(`"default"`)}
+		}); info != nil {
+			return info, pred
+		}
+		if info, pred := submit(t_api.CompletePromise, func(rq *t_api.Request) {
+			rq.CompletePromise = &t_api.CompletePromiseRequest{Id: id, State: promise.Resolved}
+		}); info != nil {
+			return info, pred
+		}
+		// dispatch cycles with drawn transport answers
+		for cycle := 0; cycle < 3; cycle++ {
+			now += cfg.SignalTimeout + cfg.TaskEnqueueDelay + 1
+			if info, pred := do(Step{Op: "tick", T: now}); info != nil {
+				return info, pred
+			}
+			for round := 0; round < 4; round++ {
+				var items []Item
+				for _, h := range w.aio.pending {
+					if h.sqe.Submission.Kind == t_aio.Store {
+						items = append(items, Item{Tid: h.tid, Seq: h.seq, Mode: "ok"})
+					}
+				}
+				if len(items) > 0 {
+					if info, pred := do(Step{Op: "exec", Items: items}); info != nil {
+						return info, pred
+					}
+				}
+				for _, h := range append([]*held{}, w.aio.pending...) {
+					if h.sqe.Submission.Kind == t_aio.Sender {
+						oc := []string{"success", "success", "failure", "error"}[g.R.Intn(4)]
+						if info, pred := do(Step{Op: "send", Tid: h.tid, Seq: h.seq, Outcome: oc}); info != nil {
+							return info, pred
+						}
+					} else if h.sqe.Submission.Kind == t_aio.Router {
+						if info, pred := do(Step{Op: "route", Tid: h.tid, Seq: h.seq}); info != nil {
+							return info, pred
+						}
+					}
+				}
+				now++
+				if info, pred := do(Step{Op: "tick", T: now}); info != nil {
+					return info, pred
+				}
+			}
+		}
+		return nil, false
+	}
 	for len(steps) < o.steps {
+		if hasKind(t_api.CreateCallback) && hasKind(t_api.CreateSubscription) && hasKind(t_api.CompletePromise) && g.R.Intn(70) == 0 {
+			if info, pred := registrationScenario(); info != nil {
+				return steps, len(steps) - 1, info, pred
+			}
+			continue
+		}
 		if hasKind(t_api.AcquireLock) && hasKind(t_api.HeartbeatLocks) && g.R.Intn(50) == 0 {
 			if info, pred := lockScenario(); info != nil {
 				return steps, len(steps) - 1, info, pred
@@ -1539,7 +1621,7 @@ func (r *runner) converge(w *world, cfg Cfg, now *int64, settle func(int, int64)
 					continue
 				}
 				return M{"what": "property monitor failed on the implementation", "property": "C11", "finding": "F16",
-					"diff": fmt.Sprintf("schedule %s (cron %v, period %d ms, signal timeout %d ms, scheduler queue %d) is %d ms behind the clock and cannot catch up: one occurrence is fired per run of SchedulePromises", id, sc["cron"], p, dt, cfg.CoroutineMaxSize, lagv),
+					"diff":               fmt.Sprintf("schedule %s (cron %v, period %d ms, signal timeout %d ms, scheduler queue %d) is %d ms behind the clock and cannot catch up: one occurrence is fired per run of SchedulePromises", id, sc["cron"], p, dt, cfg.CoroutineMaxSize, lagv),
 					"property_violation": true}, false
 			}
 			first, ok := schedLag[id]
